@@ -271,7 +271,9 @@ def _consumption(ctx, rule, sp, loop, comps, lab):
             if isinstance(n, ast.Name) and n.id == tvar and isinstance(n.ctx, ast.Load):
                 p = n._parent
                 if not (isinstance(p, ast.Subscript) and p.value is n):
-                    if not isinstance(p, ast.FormattedValue):
+                    in_test = any(isinstance(q, ast.Compare) for q in parents(n)
+                                  if not isinstance(q, ast.stmt)) and isinstance(enclosing_stmt(n), ast.If)
+                    if not isinstance(p, ast.FormattedValue) and not in_test:
                         raise AnalysisError(f"D1: loop variable `{tvar}` of {lab} used as a whole: `{short(enclosing_stmt(n))}`")
     paths = common.enum_paths(loop.body, is_event)
     for p in paths:
